@@ -79,6 +79,11 @@ def programs():
                                                           case(None, [field("z", "three")], default=True)])])
     add("many-fields", [field(f"f{chr(97 + i)}", t) for i, t in enumerate(["char", "short", "three", "int", "byte", "bool", "E1", "E2", "E3", "P", "V", "O", "char", "short"])]
         + [field("tail", "string")])
+    # a scope spans its chunked sections: fields declared inside <chunked> are used outside it and the reverse
+    add("switch-field-in-chunked", [chunked([field("k", "char"), field("s", "string")]), switch("k", [case("1", [field("a", "short")]), case(None, [field("z", "char")], default=True)])])
+    add("switch-in-chunked-field-outside", [field("k", "E1"), chunked([field("s", "string"), brk(), switch("k", [case("A", [field("t", "string")]), case("B", [])]), brk(), field("u", "string")])])
+    add("length-in-chunked-used-outside", [chunked([length("n", "char"), field("s", "string"), brk()]), array("xs", "short", length="n")])
+    add("length-outside-used-in-chunked", [length("n", "char"), chunked([array("names", "U", length="n", delimited="true"), field("tail", "string")])])
     add("shared-struct", [field("one", "F"), array("two", "F", length="2"), array("rest", "F")])
     add("none-member-switch", [field("k", "E1"), switch("k", [case("None", [field("n", "char")]), case("B", [])])])
     add("dummy-only-packet", [dummy("short", "0")], "packet:net/server")
